@@ -31,7 +31,15 @@ def case(draw, tier="quick"):
         spec["pos"] = (np.array(spec["pos"]).reshape(-1, 3) @ R.T).tolist()
     r = draw(st.sampled_from([[1, 1, 1], [2, 1, 1], [1, 2, 1], [1, 1, 2], [2, 1, 3], [1, 3, 2], [3, 2, 1], [2, 2, 2], [2, 3, 1],
                               [1, 2, 2], [3, 1, 1], [1, 1, 3], [2, 2, 1]]))
-    return {"spec": spec, "r": r, "cell_kind": ck, "rtype": draw(st.sampled_from(["tuple", "list", "array"]))}
+    c = {"spec": spec, "r": r, "cell_kind": ck, "rtype": draw(st.sampled_from(["tuple", "list", "array"]))}
+    if draw(st.integers(0, 3)) == 0:
+        # history on one object: replicate, edit public arrays directly, replicate again with the same factors
+        n = len(spec["pos"])
+        c["edit"] = {"charge": [draw(st.integers(0, n - 1)), round(draw(st.floats(8.0, 9.0)), 4)],
+                     "move": [draw(st.integers(0, n - 1)), [draw(st.floats(0.0, 0.9)) for _ in range(3)]],
+                     "retype": [draw(st.integers(0, n - 1)), draw(st.integers(0, len(spec["type_labels"]) - 1))],
+                     "how": draw(st.sampled_from(["assign-arrays", "in-place"]))}
+    return c
 
 
 def check_one(spec, r, rtype, stats):
@@ -91,8 +99,8 @@ def check_one(spec, r, rtype, stats):
         for n_, t in enumerate(got["terms"][k]):
             idx = [int(x) for x in arr.reshape(len(got["terms"][k]), -1)[n_]]
             gl.append(dict(t, tags=tuple(ident[i] for i in idx)))
-        gk = sorted((M.term_key(t) for t in gl), key=repr)
-        wk = sorted((M.term_key(t) for t in want["terms"][k]), key=repr)
+        gk = sorted((M.term_key(t, directed=(k == "improper")) for t in gl), key=repr)
+        wk = sorted((M.term_key(t, directed=(k == "improper")) for t in want["terms"][k]), key=repr)
         if gk != wk:
             miss = [x for x in wk if x not in gk]
             extra = [x for x in gk if x not in wk]
@@ -112,8 +120,66 @@ def check_one(spec, r, rtype, stats):
     return m
 
 
+def history_check(c, stats):
+    """replicate -> edit the object's public arrays -> replicate again: the second result must describe the edited
+    structure (a result remembered from the first call would not)"""
+    import copy
+    spec = c["spec"]
+    e = c["edit"]
+    a = M.build(spec)
+    rep = tuple(c["r"])
+    with silenced():
+        a.replicate(rep)
+    spec2 = copy.deepcopy(spec)
+    i, q = e["charge"]
+    j, fr = e["move"]
+    k, t = e["retype"]
+    spec2["charges"][i] = q
+    newpos = (np.array(fr) @ np.array(spec["cell"])).tolist()
+    spec2["pos"][j] = newpos
+    spec2["atom_types"][k] = t
+    if e["how"] == "in-place":
+        a.charges[i] = q
+        a.positions[j] = newpos
+        a.atom_types[k] = t
+    else:
+        ch = np.array(a.charges, float)
+        ch[i] = q
+        a.charges = ch
+        ps = np.array(a.positions, float)
+        ps[j] = newpos
+        a.positions = ps
+        ty = np.array(a.atom_types)
+        ty[k] = t
+        a.atom_types = ty
+    m2 = M.model_from_spec(spec2)
+    if len({x["tag"] for x in m2["atoms"]}) != len(m2["atoms"]):
+        return
+    try:
+        with silenced():
+            sup = a.replicate(rep)
+    except Exception as ex:
+        raise Violation("exception-in-replicate", "second replicate after editing the object: %s: %r" % (type(ex).__name__, ex))
+    want = M.m_replicate(m2, list(rep))
+    got = M.resolve(sup, "second replicate%r after editing the object (%s)" % (rep, e["how"]))
+    cell = np.array(spec["cell"])
+    key = lambda r: (r["charge"], tuple(np.round(np.array(r["pos"]), 6)))
+    gs = sorted(got["atoms"], key=key)
+    ws = sorted(want["atoms"], key=key)
+    if len(gs) != len(ws):
+        raise Violation("atom-count", "second replicate after edit: %d atoms, expected %d" % (len(gs), len(ws)))
+    for g, w in zip(gs, ws):
+        if abs(g["charge"] - w["charge"]) > 1e-12 or max(abs(x - y) for x, y in zip(g["pos"], w["pos"])) > 1e-8 or g["label"] != w["label"]:
+            raise Violation("stale-result-after-edit", "replicate%r called again after editing charges / positions / types of the "
+                            "same object (%s) returns an atom (charge %r, label %r, at %r) where the edited structure has (charge "
+                            "%r, label %r, at %r)" % (rep, e["how"], g["charge"], g["label"], g["pos"], w["charge"], w["label"], w["pos"]))
+    stats.count("history:%s" % e["how"])
+
+
 def oracle(c, stats):
     spec = c["spec"]
+    if c.get("edit") and spec["cell"] is not None:
+        history_check(c, stats)
     if c.get("all_factors"):
         for r in itertools.product([1, 2, 3], repeat=3):
             check_one(spec, list(r), c["rtype"], stats)
